@@ -89,7 +89,7 @@ int main(int argc, char **argv)
 		for (char *p = strtok(line, " "); p && na < MAXARGS; p = strtok(NULL, " ")) args[na++] = p;
 		if (na == 0) { puts("bad-op"); continue; }
 		int r = -1;
-		if (!strncmp(args[0], "w.", 2) || !strncmp(args[0], "r.", 2) || !strcmp(args[0], "blob") || !strcmp(args[0], "open.probe") || !strcmp(args[0], "reset") || !strcmp(args[0], "cfg"))
+		if (!strncmp(args[0], "w.", 2) || !strncmp(args[0], "r.", 2) || !strcmp(args[0], "blob") || !strcmp(args[0], "open.probe") || !strcmp(args[0], "excl.probe") || !strcmp(args[0], "reset") || !strcmp(args[0], "cfg"))
 			r = ops_table(args, na);
 		if (r < 0) r = ops_codec(args, na);
 		if (r < 0) puts("bad-op");
